@@ -400,13 +400,13 @@ def tasks(tier, seed):
     q = tier == "quick"
     fams3 = F.base3(q)
     nmax = 6 if q else 9
-    stride = 4 if q else 10
+    stride = 6 if q else 12
     stv_opts = F.stv_option_slice(q)
     for i, o in enumerate(stv_opts):
         fams = [fams3[i % len(fams3)]] if q else fams3
         W = 2 if o.get("transfer") == "random" else None
         for sup in supports_of(fams, sizes=(1, 2, 3, len(fams[0])) if q else None):
-            for m in (1, 2, 3):
+            for m in ((1, 2, 3) if (not q or o.get("simultaneous") or i % 2 == 0) else (1, 2)):
                 out.append(_t("STV", m, o, sup, C.K3, nmax=nmax, W=W, weight=len(sup), xval_stride=stride,
                               split=2 if len(sup) >= 4 else 0))
     for i, o in enumerate(F.seq_option_slice(q)):
